@@ -11,7 +11,7 @@
    - what the converter prints for an integer is read back by IF and set /A as that integer (C05_number_roundtrip).
    The statement over whole programs (C05_full_statement: the script's output under the model equals the reference
    semantics and the Bash run) is decided on generated programs by every run of the check, not proved. *)
-From Verif Require Import Base.Bytestr Base.DecFacts Front.Ast Back.Transpile Back.BatchConv Back.BatchSyntax Back.TraverseInv Back.BatchLabels Sem.Src Cmd.CmdModel Cmd.CmdFacts.
+From Verif Require Import Base.Bytestr Base.DecFacts Front.Ast Back.Transpile Back.BatchConv Back.BatchSyntax Back.TraverseInv Back.BatchLabels Sem.Src Cmd.CmdModel Cmd.CmdFacts Cmd.CmdWitness.
 From Coq Require Import ZArith.
 Open Scope N_scope.
 
@@ -66,6 +66,14 @@ Example C05_labels_sample :
   | _ => False
   end.
 Proof. vm_compute. split; reflexivity. Qed.
+
+(* The recorded finding, computed on the models of parser, converter, cmd.exe and the reference semantics: after a
+   panic inside a function the Batch script goes on (prints after), the program itself ends. *)
+Theorem C05_panic_in_function_refuted :
+  panic_runs = Some (CmdRan (lines3 (bs "before") (bs "panic: boom") (bs "after")) 1%Z,
+                     Ran (bs "before" ++ [10] ++ bs "panic: boom" ++ [10]) 1%Z []).
+Proof. exact panic_in_function_continues. Qed.
+Print Assumptions C05_panic_in_function_refuted.
 
 (* non-vacuity: a small script runs under the model *)
 Example C05_sample : cmd_run 100 demo_script = CmdRan (bs "f a 2" ++ [10] ++ bs "42 lss 5" ++ [10]) 3.
